@@ -23,6 +23,18 @@ try:
     print("replay binary built")
 except Exception as ex:  # not fatal: checks rebuild what they need
     print("setup warning:", ex)
+# behaviour-preservation self-test of the semantic rewrite rules (R2 R4 R14 R17 R18 R19)
+r = subprocess.run([sys.executable, os.path.join(VERIF, "tools", "rules_selftest.py")], capture_output=True, text=True)
+print((r.stdout.strip().split("\n") or ["rules_selftest: no output"])[-1])
+if r.returncode != 0:
+    print("setup: REWRITE RULE SELF-TEST FAILED -- extraction cannot be trusted:\n" + r.stdout[-1500:])
+    ok = False
+try:
+    import bounded_run
+    exe, err = bounded_run.build("/repo")
+    print("bounded stand-ins built" if exe else "setup warning: bounded stand-ins do not build: " + err[-300:])
+except Exception as ex:
+    print("setup warning:", ex)
 p = subprocess.run(["verus", "--version"], capture_output=True, text=True)
 print(p.stdout.strip().split("\n")[1] if p.returncode == 0 else "verus not runnable")
 sys.exit(0 if ok else 1)
